@@ -125,7 +125,60 @@ def c10(t):
     return out.finish()
 
 
-PROPS = {"C26": c26, "C35": c35, "C10": c10}
+def run_e2(out, pid, t, timeout=3000):
+    """Run the E2 engine (python3-vt, z3) and merge its obligations into `out`."""
+    import json
+    res = os.path.join(C.BUILD, "e2_%s_%s.json" % (pid, t))
+    if os.path.exists(res):
+        os.remove(res)
+    rc, o, wall = C.run(["python3-vt", "-m", "vlib.e2", pid, t, res], cwd=C.VERIF, timeout=timeout,
+                        log=os.path.join(C.BUILD, "logs", "e2_%s_%s.log" % (pid, t)))
+    if not os.path.exists(res):
+        print(o[-3000:])
+        out.inconclusive.append("E2 engine produced no result (rc=%s; see build/logs/e2_%s_%s.log)" % (rc, pid, t))
+        return None
+    d = json.load(open(res))
+    for ob in d["obligations"]:
+        st = ob["status"]
+        extra = {k: v for k, v in ob.items() if k not in ("name", "engine", "status", "solver_s")}
+        out.add(ob["name"], ob["engine"], st, ob.get("solver_s", 0.0), **extra)
+        if st == "violated":
+            os.makedirs(os.path.join(C.REPLAY, "e2"), exist_ok=True)
+            path = os.path.join(C.REPLAY, "e2", "%s__%s.json" % (pid, ob["name"]))
+            with open(path, "w") as f:
+                json.dump({"property": pid, "obligation": ob["name"], "claim": ob["claim"],
+                           "counterexample": ob.get("counterexample"),
+                           "how_to_replay": "build/t-natk/{debug,release}/natk evaluates the real functions; feed it the command(s) for these inputs (see harness/natk/src/main.rs), e.g. `echo 'sat N' | build/t-natk/debug/natk`"}, f, indent=1)
+            out.violation(ob["name"], "%s: %s" % (ob["name"], json.dumps(ob.get("counterexample"))[:400]), path)
+    for i in d["inconclusive"]:
+        out.inconclusive.append("E2 " + i)
+    out.samples += d["samples"]
+    out.extra.setdefault("stubs_and_models_used", [])
+    out.extra["stubs_and_models_used"] += d["stubs"]
+    out.extra["functions_encoded_from_mir"] = d["functions"]
+    out.extra["translator_validation"] = d["validation"]
+    out.extra["cvc5_cross_checked_queries"] = d["cvc5_checked"]
+    out.extra["cvc5_disagreements"] = d["cvc5_disagree"]
+    out.extra["e2_executor_stats"] = d["executor_stats"]
+    return d
+
+
+E2_NOTE = ("E2: rustc nightly MIR of crates/ordinals (dumped from the run-time copy on every run) is executed path-wise into z3 Int terms; "
+           "machine integers carry range constraints, overflow-checked ops become panic paths (dev MIR); core/std calls are replaced by the models listed in "
+           "coverage.stubs_and_models_used; the translator is validated each run by executing the same MIR concretely on the repo's test inputs and comparing with native execution (natk)")
+
+
+def c29(t):
+    out = C.Outcome("C29", "model_checking", t, ["ordinals::Height::{starting_sat,subsidy}", "ordinals::Sat::{height,epoch,epoch_position,third,cycle,period,degree,rarity,common,nineball,coin}",
+                                                 "ordinals::Epoch::{from,subsidy,starting_sat,starting_height,STARTING_SATS}", "Degree::from", "DecimalSat::from", "Rarity::{from,supply}"])
+    out.assumptions = [E2_NOTE,
+        "Sat::palindrome (digit-reversal loop) and the Palindrome charm bit are not decided",
+        "percentile notation is floating point and is not part of C29's claim here"]
+    run_e2(out, "C29", t)
+    return out.finish()
+
+
+PROPS = {"C26": c26, "C35": c35, "C10": c10, "C29": c29}
 
 
 def main(pid, argv):
